@@ -92,7 +92,10 @@ pub mod executor {
         use crate::simulation::CURRENT_MODEL_ID;
         use std::cell::RefCell;
         use std::panic::AssertUnwindSafe;
-        use std::{fmt, panic};
+        use std::future::Future;
+        use std::sync::atomic::Ordering;
+        use std::time::Duration;
+        use std::{fmt, panic, thread};
         pub struct Slab<T>(Vec<T>);
         impl<T> Slab<T> {
             pub fn new() -> Self {
@@ -115,6 +118,7 @@ pub mod executor {
 //@end
 //@item src=nexosim/src/executor/st_executor.rs kind=impl name=`^impl ExecutorContext ` id=impl-ExecutorContext
 //@end
+//@helpers src=nexosim/src/executor/st_executor.rs
 //@include inc/xexec_harness.rs
     }
 }
